@@ -23,6 +23,11 @@ def gen_spec(r):
     spec['assets'] = [a for c in cats for a in spec['assets'] if a['category'] == c]
     spec['categories'] = [c for c in spec['categories'] if any(a['category'] == c['name'] for a in spec['assets'])] or spec['categories'][:1]
     if r.random() < 0.5: spec['defines']['extra'] = 'value with spaces'
+    # strings are raw in MAL (everything between two quotes): line breaks of every kind, tabs, non-ASCII text
+    odd = ['line one\r\nline two', 'carriage\rreturn', 'two\nlines', 'tab\there', 'caf\u00e9 \u4e2d\u6587', '  padded  ', '']
+    for holder in [spec['categories'][0]] + spec['assets'] + spec['associations'] + [st for a in spec['assets'] for st in a['attackSteps']]:
+        if r.random() < 0.12: holder['meta'] = dict(holder.get('meta') or {}, user=r.choice(odd))
+    if r.random() < 0.2: spec['defines']['note'] = r.choice(odd)
     if spec['associations'] and r.random() < 0.35:
         # the same association name between the same two asset types once more, with other fields / multiplicities
         # (legal MAL; the compiler must keep both declarations)
